@@ -40,6 +40,14 @@ def run(ctx):
                        "representations x LCP x memory limits {0, 1, 4096, 1e6, 1e9} rotate; non-trivial = at least 2 strings; distinct by content")
     tlc_mc(ctx, SD, "MC_StrSortA", "mc_ssa_run.cfg", workers=8, coverage=False, timeout=3000,
            cfg_text="CONSTANTS Bytes = {1, 2, 255}\n MaxLen = %d\nSPECIFICATION Spec\nINVARIANT Laws\nCHECK_DEADLOCK FALSE\n" % (2 if quick else 3))
+    # RadixI: radixsort_CE2 with its shadow array, flip / copy_back bookkeeping, bucket-border LCPs and the memory-limit fall-back, on every small input,
+    # every number of affordable radix levels, with and without LCP; the seeded change C03b (fall-back without copy_back) must be refuted
+    RXI = "CONSTANTS Chars = {1, 2}\n MaxLen = %d\n MaxN = %d\n InsThreshold = %d\n Mutation = \"%s\"\nSPECIFICATION Spec\nINVARIANTS SortedPermutation LcpExact\nCHECK_DEADLOCK FALSE\n"
+    for (ml, mn, th) in ([(2, 4, 2)] if quick else [(2, 4, 2), (3, 4, 3), (2, 5, 2), (3, 4, 2)]):
+        tlc_mc(ctx, SD, "RadixI", "mc_radixi_run.cfg", workers=NCPU, coverage=False, timeout=6000, xmx="16g", cfg_text=RXI % (ml, mn, th, "none"))
+    r = tlc_mc(ctx, SD, "RadixI", "mc_radixi_neg.cfg", workers=NCPU, coverage=False, timeout=3000, expect_ok=False, cfg_text=RXI % (2, 4, 2, "fallback_without_copy_back"))
+    if r["ok"] or " is violated" not in r["out"]:
+        raise InternalError("negative self-test: RadixI with the memory fall-back that skips copy_back() is not refuted")
     small = [list(c) for n in range(0, 3) for c in itertools.product(ALPHA, repeat=n)]
     lines = []
     k = 0
